@@ -4,7 +4,7 @@ import itertools
 from ..common import safe_repr
 from .. import declcorr, runner
 from ..common import d42  # noqa: F401
-from d42 import schema
+from d42 import schema, validate
 from d42.declaration import DeclarationError
 
 MODULE = "D42.Props.C11"
@@ -63,13 +63,21 @@ def method_key(op):
     return "len[min,max]"
 
 
-def outcome(facade, value, ops):
+def outcome(facade, value, ops, observe=False):
+    """observe=True: every intermediate schema is compared / printed / validated against before it is refined further —
+    nothing an observation computes may travel into the schemas derived from it"""
     s = getattr(schema, facade)
+
+    def look(x):
+        if observe:
+            (x == x, x != getattr(schema, facade), x == 5, repr(x), list(x.props), validate(x, None))
+        return x
     try:
+        look(s)
         if value is not None:
-            s = s(value)
+            s = look(s(value))
         for m, a in ops:
-            s = getattr(s, m)(*a)
+            s = look(getattr(s, m)(*a))
         return ("ok", s)
     except DeclarationError:
         return ("rejected", None)
@@ -95,6 +103,10 @@ def run(ctx):
                     # order of such a set must be rejected alike
                     perms = list(itertools.permutations(combo))
                     outs = [outcome(facade, value, p) for p in perms]
+                    if k == 2:
+                        # the same orders again with every intermediate schema observed before it is refined further
+                        outs += [outcome(facade, value, p, observe=True) for p in perms]
+                        perms = perms + perms
                     ctx.case((facade, safe_repr(value), safe_repr(combo)), True)
                     ctx.count("permutations", len(perms))
                     kinds = {o[0] for o in outs}
